@@ -209,6 +209,7 @@ var specC26s = vstat.Spec[c26sCase]{
 	Assumptions: []string{"a wrongly accepted link is reported within 1.5 s of the handshake (can only miss, not invent)"},
 	Gen:         genC26s,
 	Check:       checkC26s,
+	Inflight:    true,
 }
 
 func TestC26Session(t *testing.T)       { vstat.Check(t, specC26s) }
